@@ -141,15 +141,20 @@ class NoiseExpression(Expr):
 
         x = self.__compat__(x)
 
+        # The sum has the quantity of the operand that has one
+        cls = self.__class__
+        if self.quantity == 'undefined' and x.quantity != 'undefined':
+            cls = self._class_by_quantity(x.quantity)
+
         if self.nid == x.nid:
-            return self.__class__(self.expr + x.expr, nid=self.nid)
+            return cls(self.expr + x.expr, nid=self.nid)
 
         value1 = self.expr
         value2 = x.expr
         value1sq = symsimplify(value1 * sym.conjugate(value1))
         value2sq = symsimplify(value2 * sym.conjugate(value2))
         result = symsimplify(sym.sqrt((value1sq + value2sq)))
-        return self.__class__(result)
+        return cls(result)
 
     def __radd__(self, x):
         raise ValueError('Cannot add %s and %s' % (self, x))
@@ -169,7 +174,10 @@ class NoiseExpression(Expr):
         x = self.__compat__(x)
 
         if self.nid == x.nid:
-            return self.__class__(self.expr - x.expr, nid=self.nid)
+            cls = self.__class__
+            if self.quantity == 'undefined' and x.quantity != 'undefined':
+                cls = self._class_by_quantity(x.quantity)
+            return cls(self.expr - x.expr, nid=self.nid)
         return self + x
 
     def __rsub__(self, x):
@@ -213,6 +221,12 @@ class NoiseExpression(Expr):
                 return False
         except:
             pass
+
+        # A noise spectrum is never equal to an expression of
+        # another (non-constant) domain, say a Fourier transform
+        if (isinstance(x, Expr) and not isinstance(x, NoiseExpression)
+                and not x.is_constant_domain):
+            return False
 
         x = self.__compat__(x)
         try:
